@@ -155,7 +155,7 @@ PREC = {"or": 1, "and": 2, "not": 3, "lit": 4, "glob": 4}
 
 def render_v2(t, rng=None, style="min", at=False):
     """style: min (only the parentheses precedence requires) | full (every operator node
-    parenthesised) | redundant (random extra parentheses and blanks; needs rng).
+    parenthesised) | inner (every operator node except the root parenthesised) | redundant (random extra parentheses and blanks; needs rng).
     at: True / False / "mixed" -- prefix operands with '@'."""
     red = style == "redundant"
 
@@ -176,10 +176,10 @@ def render_v2(t, rng=None, style="min", at=False):
             wrap = coin(0.25)
         elif k == "not":
             s = "not" + gap() + r(t[1], PREC["not"])
-            wrap = style == "full" or coin(0.3)
+            wrap = style == "full" or coin(0.3) or (style == "inner" and parent > 0)
         else:
             s = (gap() + k + gap()).join(r(x, PREC[k]) for x in t[1:])
-            wrap = PREC[k] < parent or style == "full" or coin(0.3)
+            wrap = PREC[k] < parent or style == "full" or coin(0.3) or (style == "inner" and parent > 0)
         if wrap:
             s = ("( " + s + " )") if coin(0.4) else ("(" + s + ")")
             if coin(0.15):
